@@ -181,7 +181,8 @@ CHECKS = {
     ),
     "C16": dict(
         profile="iofault", cat="fault_enumeration", ref="DESIGN.md section 4 C16",
-        text="For each generated H/V/VS/SD/GR/AN program the fault-free I/O trace is enumerated: every stdio event x "
+        text="The first 14 programs of every batch are directed (one per storage layout: create, close, reopen, read, rewrite, "
+             "read, close), the others generated. For each H/V/VS/SD/GR/AN program the fault-free I/O trace is enumerated: every stdio event x "
              "every applicable fault kind (EIO, short count, ENOSPC-from-here-on, sticky stream error, open failure; "
              "write-through and buffered stdio models) is injected in its own child. Oracle: no crash/hang/ASan/"
              "closed-stream use; if every call incl. the closes succeeded then files and read results equal the "
